@@ -702,3 +702,79 @@ def rule_serial(c: Ctx) -> RuleResult:
           "the builder pairs tokens by their `nesting`" if uses else "the tree builder does not look at `nesting`")
     r.floor = 2
     return r
+
+
+# ------------------------------------------------------------------------------------------------ IDENT
+def rule_ident(c: Ctx) -> RuleResult:
+    """Navigation by position: `siblings.index(self)` finds *this* node only if equality of nodes is identity.  Every search of
+    a list for one of its own elements by equality (`index`, `remove`, `count`, `in`) whose element is an instance of a package
+    class requires that the class - its package bases and subclasses included - defines no `__eq__` (and is not a dataclass
+    with the generated one)."""
+    r = RuleResult("IDENT", "a node is located among its siblings by equality (`list.index(self)`), so equality of tree nodes must be "
+                            "identity: the class and its package relatives define no __eq__")
+    nsites = 0
+
+    def relatives(k: str) -> list:
+        out, todo = [], [k]
+        while todo:
+            x = todo.pop()
+            ci = c.p.classes.get(x)
+            if ci is None or ci in out:
+                continue
+            out.append(ci)
+            todo += [b.split(".")[-1].split("[")[0] for b in ci.bases]
+            todo += [o.name for o in c.p.classes.values() if any(b.split(".")[-1].split("[")[0] == x for b in o.bases)]
+        return out
+    for f in sorted(c.p.all_funcs(), key=lambda x: x.qual):
+        if f.module.rel.startswith("cli/"):
+            continue
+        sc = c.tf.scope(f)
+        selfn = f.node.args.args[0].arg if f.cls and f.node.args.args else None
+        for n in own_nodes(f.node):
+            elem = None
+            if isinstance(n, ast.Call) and isinstance(n.func, ast.Attribute) and n.func.attr in ("index", "remove", "count") and n.args:
+                elem = n.args[0]
+            elif isinstance(n, ast.Compare) and len(n.ops) == 1 and isinstance(n.ops[0], (ast.In, ast.NotIn)):
+                elem = n.left
+            if elem is None:
+                continue
+            k = None
+            if isinstance(elem, ast.Name) and elem.id == selfn and f.cls:
+                k = f.cls.split("@")[0]
+            else:
+                t = sc.type(elem)
+                if isinstance(t, str) and t.split("@")[0] in c.p.classes:
+                    k = t.split("@")[0]
+            if k is None or k == "Token" and False:
+                continue
+            nsites += 1
+            bad = None
+            for ci in relatives(k):
+                if "__eq__" in ci.methods:
+                    bad = f"class {ci.name} defines __eq__"
+                for d in ci.node.decorator_list:
+                    dn = d.func if isinstance(d, ast.Call) else d
+                    if U(dn).split(".")[-1] == "dataclass" and not (isinstance(d, ast.Call) and any(
+                            kw.arg == "eq" and isinstance(kw.value, ast.Constant) and kw.value.value is False for kw in d.keywords)):
+                        bad = f"class {ci.name} is a dataclass with a generated __eq__"
+            r.add(f"{f.short}|{alpha(f, n)[:60]}", c.where(f, n), f.short, U(n)[:70], "violation" if bad else "discharged",
+                  f"`{U(elem)}` is searched for by equality, but {bad}: the first *equal* element is found, not this one (sibling navigation "
+                  f"lands on a different node)" if bad else f"equality of {k} instances is identity (no __eq__ in {', '.join(ci.name for ci in relatives(k))})")
+    # the two navigation properties either search by equality (counted above) or compare with `is`
+    for m in ("next_sibling", "previous_sibling"):
+        g = c.p.method("SyntaxTreeNode", m)
+        if g is None:
+            raise AnchorError(f"SyntaxTreeNode.{m} not found")
+        reach_ = {g}
+        for _ in range(3):
+            reach_ |= {h for q in list(reach_) for cs in c.cg.sites.get(q, []) if cs.kind in ("method", "direct") for h in cs.callees if h.module is g.module}
+        if any(o.func in {q.short for q in reach_} for o in r.obligations):
+            continue
+        ident = any(isinstance(x, ast.Compare) and any(isinstance(op, (ast.Is, ast.IsNot)) for op in x.ops)
+                    and any(isinstance(y, ast.Name) and q.node.args.args and y.id == q.node.args.args[0].arg for y in ast.walk(x))
+                    for q in reach_ for x in ast.walk(q.node))
+        if not ident:
+            raise AnchorError(f"SyntaxTreeNode.{m}: neither an equality-based search nor an identity comparison with self found")
+        r.add(f"{g.short}|identity", c.where(g, g.node), g.short, m, "discharged", "the node is located by an identity comparison (`is`): independent of __eq__")
+    r.floor = 1
+    return r
